@@ -700,6 +700,10 @@ func (cl *Cluster) replyFor(n *Node, pc *PCmd, kind, cls, to string) []byte {
 		if ks := cmdKeys(pc.Name, pc.Args); len(ks) > 0 {
 			k = ks[0]
 		}
+		if strings.HasPrefix(cls, "=") {
+			// a literal error line (an error with an empty message, a one-letter code, no key in the text ...)
+			return []byte("-" + cls[1:] + "\r\n")
+		}
 		return []byte("-" + cls + " simulated failure " + k + "\r\n")
 	case "moved", "ask":
 		slot := 0
@@ -865,6 +869,14 @@ func (cl *Cluster) answerEvent(nc *NodeConn, pc *PCmd, b []byte, kind, cls, to s
 		}
 		if r.T == ':' {
 			ev.Num = int(r.N)
+		}
+		if r.T == '-' && strings.HasPrefix(cls, "=") {
+			// a literal error line: its first word is the class, and it names no key
+			ev.Cls = ""
+			if w := strings.Fields(cls[1:]); len(w) > 0 {
+				ev.Cls = w[0]
+			}
+			ev.Num = -1
 		}
 	}
 	if cl.cfg.RawLog {
